@@ -10,4 +10,4 @@ def check(ctx):
                        "extract_since(<program frame>) and compares with the spec's observation for that event: the entering "
                        "manager absent, the exiting one last with is_exiting and obj identical, for every exit kind")
     ctx.assume("probes run on the thread that executes the program; async managers do not suspend in this mode")
-    m7.explore(ctx, "running", 150, 3000, seed_off=2, accept=lambda mm: not mm.get("meta"), quick_stride=2)
+    m7.explore(ctx, "running", 150, 3000, seed_off=2, accept=lambda mm: not mm.get("meta"), quick_stride=3)
